@@ -372,6 +372,14 @@ def c14(ctx):
                 sts = [x for x in t.events if x['k'] == 'st' and x['fn'] == e['fn']]
                 ctx.check('events-continue', all(x['loc'] == ('S', 'hold_exit_status') for x in sts) and e['fn'] != None, t.site(e),
                           'the event machine reads the hold flag in %s' % e['fn'])
+        # ... and never answers for the held command: the result code and the way out of HOLD belong
+        # to the command machine's release step alone
+        acks = t.acks()
+        ctx.check('release-once', not acks, t.site(acks[0] if acks else None),
+                  'the event machine produces a result code (during a hold: before any release, and a second one follows)')
+        sts = [x for x in t.stores(own_only=False) if x['loc'] in (('S', 'state'), ('S', 'hold_state_flag'))]
+        ctx.check('release-once', not sts, t.site(sts[0] if sts else None),
+                  'the event machine moves the command machine (it may be parked in HOLD): stores %s' % _eff(sts))
     return ctx
 
 
